@@ -100,7 +100,8 @@ def run_path(contract: FunctionContract, shape, prefix, repo=REPO):
         f = it.get_function(contract.target)
         args = contract.make_args(it, shape)
         if it.check() == "unsat":
-            it.obs.append(ObResult(f"{fn}/requires-satisfiable", "refuted", detail="the precondition is contradictory (vacuous contract)"))
+            # a contradictory precondition is a fault of the CONTRACT (nothing would be checked): undecided, never a verdict on the code
+            it.obs.append(ObResult(f"{fn}/requires-satisfiable", "undecided", detail="the contract's precondition is contradictory for this shape (vacuous contract)"))
             raise PathEnd()
         old = {k: (v.snapshot() if hasattr(v, "snapshot") else v) for k, v in args.items()}
         it.entry_args = old
